@@ -1131,6 +1131,43 @@ func runC18(c *Ctx) {
 	// 5. out-of-domain sequence numbers (0, negative): correspondence only — covered by exhaustive windows with base 0 (value 0)
 	// 6. arguments of the other flavor
 	k.wrongFlavor()
+	k.emptyRepresentations()
+}
+
+// emptyRepresentations: the set of 0 members has several representations (the zero value of the type = a nil map, an
+// allocated empty map, the parse of "", what a SID block of 0 entries decodes to, a derived empty set); Equal and Contains
+// must not distinguish them, in either direction, and adding to each gives the same set.
+func (k *c18) emptyRepresentations() {
+	c := k.c
+	c.R.Count("pairs/empty-representations")
+	var z replication.Mysql56GTIDSet
+	alloc := replication.Mysql56GTIDSet{}
+	out := vh.Try(func() vh.Val {
+		parsed, err := replication.VerifParseMysql56GTIDSet("")
+		blk, err2 := replication.NewMysql56GTIDSetFromSIDBlock(vh.Exact(make([]byte, 8)))
+		if err != nil || err2 != nil {
+			return vh.ErrV("parse")
+		}
+		reps := []replication.GTIDSet{z, alloc, parsed, blk}
+		ok := true
+		g := g56v{sid: [16]byte{1, 2, 3}, seq: 7}
+		first := ""
+		for i, a := range reps {
+			for _, b := range reps {
+				ok = ok && a.Equal(b) && a.Contains(b)
+			}
+			added := a.AddGTID(g.impl())
+			if i == 0 {
+				first = added.String()
+			}
+			ok = ok && added.String() == first && added.ContainsGTID(g.impl()) && !a.ContainsGTID(g.impl()) && added.Contains(a) && !a.Contains(added) && !a.Equal(added)
+		}
+		return vh.Ok(vh.B(ok))
+	})
+	if want := vh.Ok(vh.B(true)); out.String() != want.String() {
+		addCapped(c, vh.Mismatch{Kind: "spec", What: "representations of the set of 0 members are told apart by Equal / Contains / AddGTID", Case: "Mysql56GTIDSet(nil) vs Mysql56GTIDSet{} vs parse(\"\") vs block of 0 entries",
+			Expected: want.String(), Impl: out.String(), InDomain: true})
+	}
 }
 
 func (k *c18) wrongFlavor() {
